@@ -18,6 +18,15 @@ RULE = ("direct: (a) exhaustive multisets of <= 3 (quick) / <= 5 (thorough) read
         "plus a FEW-READS stream: trios / quartets / single samples where a member has c reads all stacked on the same 2-3 "
         "variants, every c in 1..k+2 for k in {2..8, 15}, once with all members at c and once mixed with members having many "
         "reads (total span <= k in Coq; a member keeps >= min(c, per-sample cap) reads; a crash of whatshap phase is a violation). "
+        "The direct stream also draws k from 1..8,15,23, 0..45 reads, up to 40 variants, genome-scale coordinates, exact duplicate reads, "
+        "preferred sets None / {} / some / all / unmatched, a second call on the same ReadSet object, and a malformed stream (a read with "
+        "< 2 variants: ValueError class only). The main CLI stream also omits --internal-downsampling (default 15) and uses "
+        "--distrust-genotypes [--include-homozygous]. " +
+        "Every CLI run additionally draws: sample names (random pool incl. names sorting against their role, role names swapped, shared "
+        "prefixes), VCF column order, 1-3 read groups per sample (ids = sample / opaque / looking like another sample), 1-2 BAM files, "
+        "an extra unrelated sample next to a pedigree family, quartets, two unrelated samples without --ped, and the options "
+        "--merge-reads, --only-snvs, --no-reference, --sample, --chromosome, --ignore-read-groups, an input VCF that already carries "
+        "phasing; any non-zero exit of whatshap phase is a violation with the spec as replay. "
         "A direct case is non-trivial if at least one read is left out; a CLI record is non-trivial if some position "
         "reaches the per-sample cap. distinct = distinct (reads, k, preferred, bridging) / (spec, chromosome).")
 TRUSTED = [
@@ -59,13 +68,27 @@ def build_readset(reads):
     return rs
 
 
-def run_impl(reads, k, pref, bridging):
-    """returns (sorted selected indices, trace items [(und, [(ri, dec)], [(ri, dec)])])"""
+class ImplError(Exception):
+    """the implementation raised on a well-formed input"""
+
+
+def run_impl(reads, k, pref, bridging, repeat=0):
+    """returns (sorted selected indices, trace items [(und, [(ri, dec)], [(ri, dec)])]).
+    repeat = number of earlier calls made on the SAME ReadSet object before the recorded one."""
+    import contextlib
+    import io
     import whatshap.readselect as rsel
     assert rsel._VERIF_TRACE, "whatshap.readselect imported without WHATSHAP_VERIF_TRACE"
     rset = build_readset(reads)
-    rsel._verif_take_log()
-    result = rsel.readselection(rset, k, None if pref is None else set(pref), bridging)
+    try:
+        with contextlib.redirect_stdout(io.StringIO()):
+            for _ in range(repeat):
+                rsel.readselection(rset, k, None if pref is None else set(pref), bridging)
+            rsel._verif_take_log()
+            result = rsel.readselection(rset, k, None if pref is None else set(pref), bridging)
+    except Exception as e:
+        rsel._verif_take_log()
+        raise ImplError(f"{type(e).__name__}: {e}")
     log = rsel._verif_take_log()
     items = []
     for e in log:
@@ -99,8 +122,8 @@ def case_term(reads, k, pref, bridging, result, items):
     ireads, n = to_index_reads(reads)
     prefflags = [(pref is not None and src in pref) for src, _ in reads]
     t = "[" + "; ".join(f"({nl(u)}, {decl(s)}, {decl(b)})" for u, s, b in items) + "]"
-    return ("(" + "[" + "; ".join(nl(r) for r in ireads) + "]" + ", " + "[" + "; ".join("true" if f else "false" for f in prefflags) + "]"
-            + f", {n}, {k}, {'true' if bridging else 'false'}, {t}, {nl(result)})")
+    return ("(([" + "; ".join(nl(r) for r in ireads) + "] : list read), ([" + "; ".join("true" if f else "false" for f in prefflags)
+            + f"] : list bool), {n}, {k}, {'true' if bridging else 'false'}, ({t} : list outer_item), ({nl(result)} : list nat))")
 
 
 # case = (reads, pref, n, k, bridging, trace, result)
@@ -148,10 +171,11 @@ def gen_exhaustive(maxreads, nvars):
 
 def gen_random(rng, count):
     for _ in range(count):
-        nv = rng.randint(2, 14)
-        positions = sorted(rng.sample(range(1, 400), nv))
-        nreads = rng.choice([1, 2, 3, 5, 8, 12, 20, 30, 45])
-        k = rng.choice([1, 1, 2, 2, 3, 4, 6])
+        nv = rng.randint(2, 14) if rng.random() < 0.9 else rng.randint(15, 40)
+        span = rng.choice([400, 400, 100000, 250000000])       # small and genome-scale coordinates
+        positions = sorted(rng.sample(range(0, span), nv))
+        nreads = rng.choice([0, 1, 2, 3, 5, 8, 12, 20, 30, 45])
+        k = rng.choice([1, 1, 2, 2, 3, 3, 4, 5, 6, 7, 8, 15, 23])
         hot = rng.randrange(nv) if rng.random() < 0.5 else None
         reads = []
         for _ in range(nreads):
@@ -182,8 +206,19 @@ def gen_random(rng, count):
                 vs = [nv - 2, nv - 1]
             src = rng.choice([0, 0, 0, 1, 1, 2])
             reads.append((src, [(positions[v], rng.randint(1, 60)) for v in vs]))
-        pref = rng.choice([None, None, [1], [1], [1, 2], [7]])
+        pref = rng.choice([None, None, [1], [1], [1, 2], [7], [], [0, 1, 2]])
+        if rng.random() < 0.1 and reads:
+            reads = reads + [reads[rng.randrange(len(reads))] for _ in range(rng.randint(1, 3))]     # exact duplicates: score ties
         yield reads, k, pref, rng.random() < 0.6
+
+
+def gen_malformed(rng, count):
+    """a read with fewer than two variants: readselection must refuse (ValueError)"""
+    for reads, k, pref, bridging in gen_random(rng, count):
+        bad = (rng.choice([0, 1]), [(rng.randint(0, 400), 30)] if rng.random() < 0.8 else [])
+        reads = list(reads)
+        reads.insert(rng.randint(0, len(reads)), bad)
+        yield reads, k, pref, bridging
 
 
 def nontrivial(reads, result):
@@ -194,8 +229,41 @@ def nontrivial(reads, result):
 def check_direct(ctx, cases, label, report=True):
     """cases: list of (reads, k, pref, bridging). Returns (records, failing)."""
     recs, terms = [], []
-    for reads, k, pref, bridging in cases:
-        result, items = run_impl(reads, k, pref, bridging)
+    for ci, (reads, k, pref, bridging) in enumerate(cases):
+        repeat = 1 if (label == "all" and ci % 9 == 4) else 0      # every 9th case: second call on the same ReadSet object
+        try:
+            result, items = run_impl(reads, k, pref, bridging, repeat=repeat)
+        except ImplError as e:
+            ctx.count(("direct", repr(reads), k, repr(pref), bridging), nontrivial=True)
+            ctx.violation("readselect:exception", f"readselection raised {e} on well-formed input k={k} pref={pref} "
+                          f"bridging={bridging} reads={reads}", replay_of((reads, k, pref, bridging)))
+            continue
+        if repeat:
+            ctx.tally("direct.second_call_on_same_readset")
+        ireads, nvar = to_index_reads(reads)
+        cnt = [sum(1 for r in result if ireads[r][0] <= i <= ireads[r][-1]) for i in range(nvar)]
+        ctx.tally("direct.nreads=" + ("0" if not reads else "1" if len(reads) == 1 else "2" if len(reads) == 2 else "many"))
+        ctx.tally("direct.outer_iterations=" + (str(len(items)) if len(items) < 3 else "3+"))
+        ctx.tally("direct.bridge_selected", sum(1 for it in items for _, d in it[2] if d == "Selected"))
+        ctx.tally("direct.slice_skipped", sum(1 for it in items for _, d in it[1] if d == "Skipped"))
+        if cnt and max(cnt) == k:
+            ctx.tally("direct.cap_reached_exactly")
+        if cnt and max(cnt) == k - 1:
+            ctx.tally("direct.max_coverage_one_below_cap")
+        if reads and len(result) == len(reads):
+            ctx.tally("direct.everything_selected")
+        if k > len(reads):
+            ctx.tally("direct.k_above_read_count")
+        if pref is not None and reads and all(sid in pref for sid, _ in reads):
+            ctx.tally("direct.all_reads_preferred")
+        if pref == []:
+            ctx.tally("direct.preferred_empty_set")
+        if len({repr(r[1]) for r in reads}) < len(reads):
+            ctx.tally("direct.identical_reads_present")
+        if nvar > 14:
+            ctx.tally("direct.more_than_14_variants")
+        if reads and max(p for _, vs in reads for p, _ in vs) > 100000:
+            ctx.tally("direct.genome_scale_positions")
         recs.append((reads, k, pref, bridging, result, items))
         terms.append(case_term(reads, k, pref, bridging, result, items))
         ctx.count(("direct", repr(reads), k, repr(pref), bridging), nontrivial=nontrivial(reads, result))
@@ -211,6 +279,43 @@ def check_direct(ctx, cases, label, report=True):
     if report:
         report_direct(ctx, recs, failing)
     return recs, failing
+
+
+def check_malformed(ctx, cases):
+    """reads with < 2 variants: implementation raises ValueError, model answers ValueErr (error class only)."""
+    import contextlib
+    import io
+    import whatshap.readselect as rsel
+    terms, raw = [], []
+    for reads, k, pref, bridging in cases:
+        rset = build_readset(reads)
+        try:
+            with contextlib.redirect_stdout(io.StringIO()):
+                rsel.readselection(rset, k, None if pref is None else set(pref), bridging)
+            got = "returned"
+        except ValueError:
+            got = "ValueError"
+        except Exception as e:
+            got = type(e).__name__
+        rsel._verif_take_log()
+        ctx.count(("malformed", repr(reads), k), nontrivial=True)
+        ctx.tally("direct.malformed_short_read")
+        if got != "ValueError":
+            ctx.l2_disagreement("readselection refuses reads with < 2 variants (ValueError)", [{"reads": reads, "k": k, "got": got}])
+            continue
+        positions = sorted({p for _, vs in reads for p, _ in vs})
+        idx = {p: i for i, p in enumerate(positions)}
+        ireads = [[idx[p] for p, _ in vs] for _, vs in reads]
+        terms.append("(([" + "; ".join(nl(r) for r in ireads) + f"] : list read), {len(positions)}, {k})")
+        raw.append((reads, k))
+    if not terms:
+        return
+    failing, errors = eval_checks("C07m", HEADER, {"L2": "fun c => let '(reads, n, k) := c in match readselection PrefRepaired "
+                                                   "reads [] n k true [] with inr ValueErr => true | _ => false end"}, terms, shard=300)
+    if errors:
+        raise RuntimeError("coq evaluation failed: " + errors[0][1])
+    if failing["L2"]:
+        ctx.l2_disagreement("model answers ValueErr on reads with < 2 variants", [{"reads": raw[i][0]} for i in failing["L2"]])
 
 
 def replay_of(rec):
@@ -294,9 +399,12 @@ def check_cli(ctx, specs, label):
         results = list(ex.map(one, enumerate(specs)))
     terms, owners = [], []
     for spec, res in zip(specs, results):
+        phase_cli.tally_variation(ctx, spec, "cli")
         if res["rc"] != 0:
-            ctx.violation("readselect:cli-crash", f"whatshap phase failed (rc={res['rc']}) on synthetic input {spec}: "
-                          + res["stderr"][-400:], {"kind": "cli", "spec": spec})
+            ctx.count(("cli", repr(spec)), nontrivial=True)
+            sig, why = phase_cli.classify_crash(spec, res, "readselect:cli-crash")
+            ctx.violation(sig, f"{why} (rc={res['rc']}) on synthetic input {spec}: " + res["stderr"][-400:],
+                          {"kind": "cli", "spec": spec})
             continue
         for term, rec, binding in cli_terms(res, spec):
             terms.append(term)
@@ -348,6 +456,7 @@ def run(ctx):
     ctx.extra["direct_exhaustive_cases"] = len(ex)
     ctx.exhaustive = True
     recs, failing = check_direct(ctx, CORPUS + ex + rnd, "all")
+    check_malformed(ctx, list(gen_malformed(rng, ctx.n(60, 600))))
     for r in recs[:2] + recs[-2:]:
         ctx.sample({"reads": r[0], "k": r[1], "preferred": r[2], "bridging": r[3], "impl_selected": r[4],
                     "outer_iterations": len(r[5])})
@@ -376,8 +485,15 @@ def run(ctx):
                 check_direct(ctx, cand, "search")
     # CLI level
     specs = []
-    for i in range(ctx.n(28, 220)):
-        specs.append(phase_cli.make_spec(rng, trio=(i % 3 == 0), tag="PS", low_cov_gaps=False))
+    for i in range(ctx.n(48, 260)):
+        kw = {}
+        if i % 7 == 3:
+            kw["k"] = 15
+            kw["var"] = {"default_k": True}                 # --internal-downsampling omitted: default 15
+        if i % 5 == 2:
+            kw["distrust"] = True
+            kw.setdefault("var", {})["include_homozygous"] = (i % 10 == 2)
+        specs.append(phase_cli.make_spec(rng, trio=(i % 3 == 0), tag="PS", low_cov_gaps=False, **kw))
     check_cli(ctx, specs, "cli")
     check_cli_stacked(ctx, gen_stacked_specs(ctx), "st")
     check_cap_limit(ctx)
@@ -437,13 +553,9 @@ def check_cli_stacked(ctx, specs, label):
     for spec, res in zip(specs, results):
         fam = phase_cli.family_samples(spec)
         counts = spec["stacked"]["counts"]
-        ctx.tally(f"stacked.family={spec['family']}")
+        phase_cli.tally_variation(ctx, spec, "stacked")
         if res["rc"] != 0:
-            if "GrayCodes" in res["stderr"] or res["rc"] < 0 or res["rc"] == 124:
-                sig, why = "phase:solver-abort-over-cap", ("the solver aborted / was killed / timed out (GrayCodes assertion, signal or "
-                                                           "timeout: more reads span a column than the exponential table supports)")
-            else:
-                sig, why = "readselect:cli-crash", "whatshap phase failed"
+            sig, why = phase_cli.classify_crash(spec, res, "readselect:cli-crash")
             ctx.count(("stacked", repr(spec)), nontrivial=True)
             ctx.violation(sig, f"{why} (rc={res['rc']}) with --internal-downsampling {spec['k']}, family {spec['family']}, reads per "
                           f"member {counts} stacked on the same variants: {res['stderr'][-300:]}", {"kind": "stacked", "spec": spec})
@@ -453,11 +565,12 @@ def check_cli_stacked(ctx, specs, label):
             continue
         for term, rec, binding in cli_terms(res, spec):
             order = rec["family"]
-            expect = "[" + "; ".join("None" if counts[fam.index(s)] is None else f"(Some {counts[fam.index(s)]}%nat)" for s in order) + "]"
+            cnt_of = lambda smp: counts[fam.index(smp)] if smp in fam else None       # extra unrelated sample: ordinary reads
+            expect = "[" + "; ".join("None" if cnt_of(s) is None else f"(Some {cnt_of(s)}%nat)" for s in order) + "]"
             terms.append(term[:-1] + ", (" + expect + " : list (option nat)))")
             owners.append((spec, rec))
-            few = [c for c in counts if c is not None]
-            ctx.count(("stacked", repr(spec)), nontrivial=len(order) > 1 and sum(few) > spec["k"] // len(order))
+            few = [c for c in counts if c is not None] if set(order) & set(fam) else []
+            ctx.count(("stacked", repr(spec), tuple(order)), nontrivial=len(order) > 1 and sum(few) > spec["k"] // len(order))
             ctx.tally("stacked.records")
             ctx.tally(f"stacked.k={spec['k']}")
             ctx.tally("stacked.selected_reads", len(rec["reads"]))
